@@ -132,9 +132,16 @@ PrefixDefault(dir, prefix) ==
       [] prefix = "/usr/local" -> (CASE dir = "sysconfdir" -> "etc" [] dir = "localstatedir" -> "/var/local" [] OTHER -> "/var/local/lib")
       [] OTHER -> (CASE dir = "sysconfdir" -> "etc" [] dir = "localstatedir" -> "var" [] OTHER -> "com")
 
+\* A prefix may be spelled with a trailing slash: "/usr/" names the prefix /usr (the stored prefix is the spelling
+\* without it; the root "/" keeps its slash).  Text being atomic here, the spellings the scenarios use are tabulated.
+SanitizePrefix(p) ==
+    CASE p = "/usr/" -> "/usr" [] p = "/usr/local/" -> "/usr/local" [] p = "/opt/verif/" -> "/opt/verif" [] OTHER -> p
+PrefixValue(c) == VStr(SanitizePrefix(PlainTop(c, "prefix", "h").w[1]))
+
+\* an explicit value for the directory beats the prefix-derived default; else the default follows the (sanitised) prefix
 DirValue(c, dir) ==
     IF WinLevel(c, TopOrder, dir, "h") # 0 THEN PlainTop(c, dir, "h")
-    ELSE VStr(PrefixDefault(dir, PlainTop(c, "prefix", "h").w[1]))
+    ELSE VStr(PrefixDefault(dir, PrefixValue(c).w[1]))
 
 \* ---- the rule book: allowed observations ---------------------------------------
 IsBtCase(c) == HasDecl(c, "buildtype", "g")
@@ -142,6 +149,7 @@ IsBtCase(c) == HasDecl(c, "buildtype", "g")
 AllowedTop(c, name, m) ==
     IF name \in BtNames /\ IsBtCase(c) THEN BtAllowed(c, name, TopOrder)
     ELSE IF name \in PrefixDirs /\ HasDecl(c, "prefix", "g") THEN {DirValue(c, name)}
+    ELSE IF name = "prefix" /\ HasDecl(c, "prefix", "g") THEN {PrefixValue(c)}
     ELSE {PlainTop(c, name, m)}
 
 AllowedSub(c, name, m) ==
